@@ -162,6 +162,7 @@ func extra() {
 		})
 	}
 	emitStr("crdBailCondition", crdCond)
+	emitSkeletons()
 	// order in which Options.MergeValues applies the value-flag families
 	emitList("valueFlagOrder", rangeOrder(funcDecl(parse("pkg/cli/values/options.go"), "Options", "MergeValues")))
 }
